@@ -209,13 +209,15 @@ func (s *t2server) dialCarrier(clientIP string, prefix []byte) (*carrier, error)
 	if err != nil {
 		return nil, err
 	}
-	c := &carrier{conn: websocketconn.New(ws), closed: make(chan struct{}), readerDone: make(chan struct{})}
+	// the prefix is written synchronously on the raw connection (websocketconn's Write only hands the bytes
+	// to a goroutine; a carrier closed right afterwards might never send them)
 	if len(prefix) > 0 {
-		if _, err := c.conn.Write(prefix); err != nil {
-			c.close()
+		if err := ws.WriteMessage(websocket.BinaryMessage, prefix); err != nil {
+			ws.Close()
 			return nil, err
 		}
 	}
+	c := &carrier{conn: websocketconn.New(ws), closed: make(chan struct{}), readerDone: make(chan struct{})}
 	return c, nil
 }
 
@@ -653,9 +655,12 @@ func judgeAccepted(r *en.R, s *t2server, sessions []*sessResult, desc interface{
 				}
 				r.Fail("accept:wrong-bytes", fmt.Sprintf("the bridge read %d bytes for session %x, the client wrote %d; first difference at %d", len(a.recv), tag, len(x.payload), d), desc)
 			}
-			wantAddr := ""
-			if x.wantIP != "" && x.wantIP != "\x00none" {
-				wantAddr = clientAddr(x.wantIP).String()
+			// what the bridge must be told for the client_ip values the harness uses (written out, not
+			// computed by the sanitiser under test)
+			wantAddr := map[string]string{"1.2.3.4": "1.2.3.4:1", "9.9.9.9": "9.9.9.9:1", "2001:db8::7": "[2001:db8::7]:1", "8.8.8.8": "8.8.8.8:1", "7.7.7.7": "7.7.7.7:1", "6.6.6.6": "6.6.6.6:1", "2001:db8::9": "[2001:db8::9]:1",
+				"5.6.7.8": "5.6.7.8:1", "\x00none": "", "0.0.0.0": "", "not-an-ip": "", "": ""}[x.wantIP]
+			if strings.HasPrefix(x.wantIP, "10.9.") {
+				wantAddr = x.wantIP + ":1"
 			}
 			if a.remote != wantAddr {
 				r.Fail("accept:wrong-client-address", fmt.Sprintf("session %x was accepted with client address %q, its carrier presented client_ip=%q (%q)", tag, a.remote, x.wantIP, wantAddr), desc)
@@ -815,22 +820,23 @@ func TestVerifEnumC05T2(t *testing.T) {
 		name  string
 		sched []int
 		size  int
+		rot   int // which client addresses the sessions present (rotation of the list)
 	}
 	var scen []scenario
 	for i := range scs {
 		for _, sz := range sizes {
-			scen = append(scen, scenario{fmt.Sprintf("1x%s/%d", scs[i].name, sz), []int{i}, sz})
+			scen = append(scen, scenario{fmt.Sprintf("1x%s/%d", scs[i].name, sz), []int{i}, sz, i + len(scen)})
 		}
 	}
 	for i := range scs {
 		for j := range scs {
-			scen = append(scen, scenario{fmt.Sprintf("2x%s+%s", scs[i].name, scs[j].name), []int{i, j}, 3000})
+			scen = append(scen, scenario{fmt.Sprintf("2x%s+%s", scs[i].name, scs[j].name), []int{i, j}, 3000, i + j})
 		}
 	}
 	for i := range scs {
-		scen = append(scen, scenario{fmt.Sprintf("3x%s+%s+%s", scs[i].name, scs[(i+1)%len(scs)].name, scs[(i+3)%len(scs)].name), []int{i, (i + 1) % len(scs), (i + 3) % len(scs)}, 3000})
+		scen = append(scen, scenario{fmt.Sprintf("3x%s+%s+%s", scs[i].name, scs[(i+1)%len(scs)].name, scs[(i+3)%len(scs)].name), []int{i, (i + 1) % len(scs), (i + 3) % len(scs)}, 3000, i})
 	}
-	ips := [][2]string{{"1.2.3.4", "9.9.9.9"}, {"2001:db8::7", "8.8.8.8"}, {"\x00none", "7.7.7.7"}}
+	ips := [][2]string{{"1.2.3.4", "9.9.9.9"}, {"2001:db8::7", "8.8.8.8"}, {"\x00none", "7.7.7.7"}, {"0.0.0.0", "6.6.6.6"}, {"not-an-ip", "2001:db8::9"}}
 	runScenario := func(sc scenario) (infra error, timeouts int, fails []*sessResult, s *t2server, sessions []*sessResult) {
 		s, err := startT2Server()
 		if err != nil {
@@ -844,7 +850,8 @@ func TestVerifEnumC05T2(t *testing.T) {
 			wg.Add(1)
 			go func() {
 				defer wg.Done()
-				sessions[k] = runSession(s, scs[si], tag, sc.size, ips[k][0], ips[k][1])
+				ip := ips[(k+sc.rot)%len(ips)]
+				sessions[k] = runSession(s, scs[si], tag, sc.size, ip[0], ip[1])
 			}()
 		}
 		wg.Wait()
